@@ -462,6 +462,27 @@ def small_scope(limit=None):
     return out
 
 
+def exotic_cases():
+    """every name the generated code uses itself, offered by each kind of source and consumed in every phase"""
+    out = []
+
+    def sig(pos):
+        return {'pos': pos, 'posonly': 0, 'kwonly': [], 'defaulted': []}
+    for x in chainlab.EXOTIC:
+        for source in ('resource', 'route_resource', 'url', 'provides'):
+            mws = [{'inst': 0, 'id': 0, 'unique': True, 'reorderable': True, 'request': sig(['next']),
+                    'endpoint': None, 'render': None, 'provides': [x] if source == 'provides' else [],
+                    'endpoint_provides': [], 'render_provides': []},
+                   {'inst': 1, 'id': 1, 'unique': True, 'reorderable': True, 'request': sig(['next', x]),
+                    'endpoint': sig(['next', x]), 'render': sig(['next', x, 'context']), 'provides': [],
+                    'endpoint_provides': [], 'render_provides': []}]
+            out.append({'resources': [x] if source == 'resource' else [], 'route_resources': [x] if source == 'route_resource' else [],
+                        'url': [x] if source == 'url' else [], 'url_multi': [], 'mws': [mws[0]], 'route_mws': [mws[1]],
+                        'endpoint': {'sig': sig([x]), 'kind': 'plain'}, 'render': {'sig': sig(['context', x]), 'kind': 'plain'},
+                        'scripts': {'mw': [], 'ep': ['ctx', 'CTX'], 'rn': ['resp', 'RN'], 'positional': []}})
+    return out
+
+
 # ------------------------------------------------------------------ driver
 def impl(case):
     return chainlab.impl(case)
@@ -540,6 +561,7 @@ def run(prop, rep, b, tier, seed, only_cases=None):
         cases = list(only_cases)
     else:
         cases += small_scope(1200 if tier == 'quick' else None)
+        cases += exotic_cases()
         for _ in range(n_rand):
             cases.append(chainlab.gen_config(rng))
         for d in chainlab.DEFECTS:
